@@ -162,8 +162,8 @@ Print Assumptions C12_F7_refuted.
 
 (* F8: the secret part of an unprotected ECDH key *)
 Theorem C12_F8_refuted : forall P,
-  parse_secret_tail legacy P f8_key false [0; 0; 8; 1; 0; 1] = Panic "impossible" /\
-  parse_secret_tail fixed P f8_key false [0; 0; 8; 1; 0; 1] = Ok tt.
+  parse_secret_tail legacy P f8_key true [0; 0; 8; 1; 0; 1] = Panic "impossible" /\
+  parse_secret_tail fixed P f8_key true [0; 0; 8; 1; 0; 1] = Ok tt.
 Proof. intros P. split; [apply f8_legacy_panics | apply f8_fixed_parses]. Qed.
 Print Assumptions C12_F8_refuted.
 
